@@ -27,6 +27,20 @@ from specs import SPECS  # noqa: E402
 
 
 def run_one(job):
+    """one case; a run that ends TIMEOUT, or whose log the driver gave no verdict on, is repeated
+    once (every run is deterministic in its arguments and seed: only a starved machine makes the
+    second attempt differ, and a real hang or divergence shows again)"""
+    res = _run_one(job)
+    drv = res.get("drv") or {}
+    no_verdict = job[0].get("model") and not drv.get("validate_ok") and "diverge" in drv and drv["diverge"].get("why") == "driver produced no verdict"
+    if res["status"] == "TIMEOUT" or no_verdict:
+        res2 = _run_one(job)
+        res2["retried"] = res["status"] if res["status"] == "TIMEOUT" else "no-verdict"
+        return res2
+    return res
+
+
+def _run_one(job):
     part, exe, case, workdir, idx = job
     r = vlib.run_case(exe, case["args"], case["env"], workdir, "c%05d" % idx, timeout=case.get("timeout", 120))
     res = {"case": case, "status": r["status"], "rc": r["rc"], "log": r["log"], "part": part["name"], "idx": idx}
